@@ -146,9 +146,10 @@ func writeValue(buf *bytes.Buffer, v value) {
 		buf.WriteString("map[")
 		if v != nil {
 			for k := range v.keys {
-				if k > 0 {
-					buf.WriteString(" ")
+				if v.dead[k] {
+					continue
 				}
+				buf.WriteString(" ")
 				writeValue(buf, v.keys[k])
 				buf.WriteString(":")
 				writeValue(buf, v.vals[k])
